@@ -60,6 +60,7 @@ ASSUMPTIONS = [
     "claim holds on the lattice only",
 ]
 REQUIRED_CLASSES = [
+    "reconf", "reconf:plasma-changed", "reconf:plasma-same", "reconf:element", "reconf:energy", "reconf:length", "reconf:step",
     "plasma:none", "plasma:uniform", "plasma:nonuniform", "plasma:slab",
     "place:identity", "place:translated", "place:rot90",
     "div:none", "div:x-only", "div:y-only", "div:equal", "div:unequal",
@@ -144,7 +145,7 @@ def _mod():
             beam.attenuator = SingleRayAttenuator(step=step, clamp_to_zero=True, clamp_sigma=clamp)
         return beam, (world, pnode, plasma, bparent)
 
-    _cache.update(np=np, M=M, build=build, elements=elements)
+    _cache.update(np=np, M=M, build=build, elements=elements, species=species, AD=AD)
     return _cache
 
 
@@ -162,7 +163,81 @@ def cases(tier):
                                                                  a["element"], a["length"], a["step"]):
         out.append({"kind": "main", "plasma": kind, "place": place, "energy": e, "power": p, "element": el, "length": length,
                     "step": step, "sigmas": a["sigma"], "divs": a["div"], "clamps": a["clamp"], "label": "main:" + kind})
+    # reconfiguration cases: a beam that has already been observed is brought from configuration A to configuration B
+    # through the public setters and must then follow the attenuation law of B (analytic reference of B, not a
+    # differential comparison): a cache that survives a change shows up here inside C04's own oracle
+    kinds = [k for k in a["plasma"]]
+    for ka, kb in itertools.product(kinds, kinds):
+        for ch in RECONF_CHANGES:
+            if ka == kb and not ch:
+                continue
+            out.append({"kind": "reconf", "from": ka, "to": kb, "changes": ch, "label": "reconf:%s>%s" % (ka, kb)})
     return out
+
+
+RECONF_BASE = {"energy": 6e4, "power": 1e6, "element": "deuterium", "length": 3.0, "step": 0.05}
+RECONF_ALT = {"energy": 1e3, "power": 2.5e5, "element": "hydrogen", "length": 1.7, "step": 0.3}
+RECONF_CHANGES = [[], ["element"], ["energy"], ["power"], ["length"], ["step"], ["element", "energy"], ["energy", "length", "step"]]
+
+
+def _run_reconf(case):
+    c = _mod()
+    np, M, build = c["np"], c["M"], c["build"]
+    from cherab.core import Species, Maxwellian   # noqa: F401 (species built through the same helper as build())
+    V = _V()
+    ka, kb, changes = case["from"], case["to"], case["changes"]
+    place, sigma = "translated", 0.05
+    A = dict(RECONF_BASE)
+    B = dict(RECONF_BASE)
+    for k in changes:
+        B[k] = RECONF_ALT[k]
+    classes = ["reconf", "reconf:plasma-changed" if ka != kb else "reconf:plasma-same"] + ["reconf:" + k for k in changes]
+    n = 0
+    for observe_first in (True, False):
+        beam, keep = build(ka, place, A["energy"], A["power"], A["element"], A["length"], A["step"], sigma, 0.0, 0.0, None)
+        plasma = keep[2]
+        if observe_first:
+            beam.density(0.0, 0.0, 0.5 * A["length"])       # fills the attenuator's caches
+        # public setters, in a fixed order
+        if ka != kb:
+            sps, mode, _ = M.PLASMAS[kb]
+            plasma.composition = [c["species"](sp) for sp in sps]
+            beam.atomic_data = c["AD"](mode)
+        if "element" in changes:
+            beam.element = c["elements"][B["element"]]
+        if "energy" in changes:
+            beam.energy = B["energy"]
+        if "power" in changes:
+            beam.power = B["power"]
+        if "length" in changes:
+            beam.length = B["length"]
+        if "step" in changes:
+            beam.attenuator.step = B["step"]
+        ref = M.axis_reference(kb, place, B["element"], B["energy"], B["length"], B["step"])
+        lam0 = M.source_line_density(B["power"], B["energy"], c["elements"][B["element"]].atomic_weight)
+        zn = ref["z"]
+        a_end = float(ref["a_trap"][-1])
+        rtol = 1e-12 + 1e-11 * a_end
+        norm = 2.0 * math.pi * sigma * sigma
+        bad = None
+        for z, a in zip(zn, ref["a_trap"]):
+            n += 1
+            exp = lam0 * math.exp(-float(a))
+            try:
+                obs = beam.density(0.0, 0.0, float(z)) * norm
+            except Exception as ex:  # noqa
+                bad = (float(z), exp, "%s: %s" % (type(ex).__name__, str(ex)[:120]))
+                break
+            if not _close(obs, exp, rtol):
+                bad = (float(z), exp, obs)
+                break
+        if bad is not None:
+            lab = "+".join((["plasma"] if ka != kb else []) + list(changes))
+            V.add("reconfigure:%s:%s:on-axis-line-density-not-that-of-the-final-configuration" % (lab, "after-observation" if observe_first else "before-any-observation"),
+                  "beam built with plasma=%s %r, %s, then brought to plasma=%s %r through the public setters; z=%g" % (ka, A, "observed once" if observe_first else "not observed", kb, B, bad[0]),
+                  bad[1], bad[2])
+    return {"viol": V.list(), "classes": classes, "n": n, "outcome": ("reconf", ka, kb, tuple(changes), len(V.list())),
+            "states": [("reconf", ka, kb, tuple(changes))], "transitions": n, "nontrivial": [("reconf", ka, kb, tuple(changes))]}
 
 
 def crash_label(case):
@@ -203,6 +278,8 @@ def _close(obs, exp, rel):
 def run_case(case):
     if case["kind"] == "main":
         return _run_main(case)
+    if case["kind"] == "reconf":
+        return _run_reconf(case)
     return _run_dir(case)
 
 
